@@ -28,12 +28,18 @@ EXPLANATION = (
     "sequence (1..1023,0) and the FREQ_TYPE_SERV filter are compared by folding the lowered index terms over the "
     "whole domain, so the verdict covers every bitmap, every length and every cell allocation. Caller buffers "
     "are resolved by a C lexer over sysinfo.c / gsm48_rr.c / sysinfo.h; trxcon's trx_if_cmd_setfh is checked on "
-    "its clang AST (snprintf size tracking, empty allocation rejected).")
+    "its clang AST (snprintf size tracking, empty allocation rejected). Array extents and guard bounds written as "
+    "macros are folded after token-level macro expansion (the slice hands the macros of sysinfo.h to clang verbatim), "
+    "so an early exit on the output counter is decided by comparing its folded threshold with the number of walked "
+    "bits. The callers (gsm48_decode_sysinfo4, gsm48_rr_render_ma) are sliced too, behind synthesised declarations: "
+    "the guard atoms dominating each call are folded over the finite box (remaining octets x length octet) and must "
+    "imply that the bitmap handed to the decoder lies inside the received message / the LV buffer.")
 ASSUMPTIONS = [
     "clang 14 parses the sliced function exactly as the layer23 build would (prelude models only declarations: stdint.h, EINVAL sign, struct gsm_sysinfo_freq {uint8_t mask;}, FREQ_TYPE_* values and array extents read from sysinfo.h, LOGP reduced to the evaluation of its value arguments)",
     "int is 32 bit: no counter in the function exceeds 2040, so machine arithmetic coincides with integer arithmetic",
     "the out-parameters do not alias: hopp_len does not point into freq[], hopping[] or the bitmap",
-    "callers pass at least `len` readable bitmap octets (the SI4 decoder checks payload_len >= 2 + data[1]; the LV in gsm48_rr_cd is length-checked on reception)",
+    "message parsers that call the decoder: their length parameter is the number of octets readable at the message pointer and the message struct is packed (sizeof(*msg) is the offset of its trailing data[]), so `remaining` starts as the exact count of octets at the cursor (C20.R6 checks the initialisation shape, the paired advances and the guards)",
+    "the callers are parsed as function slices behind synthesised declarations (K&R prototypes for callees, `extern const int` for upper-case constants, structs reduced to the members used, real scalar types where the struct is found in the tree); only literals, the function's own locals and guards over them are interpreted; upper-case function-like macros (OSMO_MIN, LOGP) neither change control flow nor assign to locals; callees do not modify the received message between a guard and the call",
     "snprintf returns the untruncated length (C99) and never writes more than its size argument",
 ]
 
@@ -101,23 +107,149 @@ def split_args(s):
 
 
 def c_int(txt, macros=None):
-    """integer value of a literal / simple macro name (None otherwise)"""
-    t = txt.strip()
-    while t.startswith("(") and t.endswith(")") and match_close(t, 0) == len(t) - 1:
-        t = t[1:-1].strip()
-    m = re.fullmatch(r"(0[xX][0-9a-fA-F]+|\d+)[uUlL]*", t)
-    if m:
-        return int(m.group(1), 0)
-    if macros and re.fullmatch(r"\w+", t) and t in macros:
-        return c_int(macros[t], None)
-    return None
+    """integer value of a literal / constant expression over object-like macros (None otherwise)"""
+    return c_fold(txt, macros)
+
+
+AMBIGUOUS = "\0redefined"      # replacement text of a macro that is defined twice with different bodies
 
 
 def read_defines(clean):
     out = {}
     for m in re.finditer(r"^[ \t]*#[ \t]*define[ \t]+(\w+)[ \t]+([^\n]*?)[ \t]*$", clean, re.M):
-        out[m.group(1)] = m.group(2)
+        if m.group(1) in out and " ".join(out[m.group(1)].split()) != " ".join(m.group(2).split()):
+            out[m.group(1)] = AMBIGUOUS
+        else:
+            out[m.group(1)] = m.group(2)
     return out
+
+
+def active_defines(clean, guard_depth=0):
+    """object-like #defines outside conditional blocks, in source order.
+    guard_depth=1: the file is wrapped in an include guard (#ifndef X / #define X ... #endif)."""
+    out, depth = [], 0
+    for ln in clean.split("\n"):
+        m = re.match(r"[ \t]*#[ \t]*(\w+)(.*)$", ln)
+        if not m:
+            continue
+        d = m.group(1)
+        if d in ("if", "ifdef", "ifndef"):
+            depth += 1
+        elif d == "endif":
+            depth -= 1
+        elif d == "define" and depth == guard_depth:
+            mm = re.match(r"[ \t]+(\w+)[ \t]+([^\n]*?)[ \t]*$", m.group(2))
+            if mm:
+                out.append((mm.group(1), mm.group(2)))
+        elif d == "undef" and depth <= guard_depth:
+            mm = re.match(r"[ \t]+(\w+)", m.group(2))
+            if mm:
+                out.append((mm.group(1), AMBIGUOUS))
+    return out
+
+
+CTOK = re.compile(r"\s*(0[xX][0-9a-fA-F]+[uUlL]*|\d+[uUlL]*|[A-Za-z_]\w*|<<|>>|[-+*/%&|^~()])")
+
+
+def c_tokens(txt):
+    """tokens of an integer expression text (None if something is outside the vocabulary)"""
+    toks, pos = [], 0
+    txt = txt.rstrip()
+    while pos < len(txt):
+        m = CTOK.match(txt, pos)
+        if not m:
+            return None
+        toks.append(m.group(1))
+        pos = m.end()
+    return toks
+
+
+def expand_tokens(toks, macros, busy=()):
+    """object-like macro expansion on the token level -- exactly what the preprocessor does, so an
+    unparenthesised replacement list keeps its (possibly surprising) binding in the surrounding expression"""
+    out = []
+    for t in toks:
+        if re.fullmatch(r"[A-Za-z_]\w*", t) and macros and t in macros and t not in busy:
+            sub = c_tokens(macros[t])
+            if sub is None:
+                return None
+            sub = expand_tokens(sub, macros, busy + (t,))
+            if sub is None:
+                return None
+            out += sub
+        else:
+            out.append(t)
+    return out
+
+
+CLEVELS = [["|"], ["^"], ["&"], ["<<", ">>"], ["+", "-"], ["*", "/", "%"]]
+CFUN = {"|": X.bor, "^": X.bxor, "&": X.band, "<<": X.shl, ">>": X.shr, "+": X.add, "-": X.sub,
+        "*": X.mul, "/": X.div, "%": X.mod}
+
+
+def cexpr_term(toks, leaf, what):
+    """term of a token list, C precedence (| ^ & shift additive multiplicative unary); identifiers go through leaf()"""
+    pos = [0]
+
+    def peek():
+        return toks[pos[0]] if pos[0] < len(toks) else None
+
+    def eat():
+        if pos[0] >= len(toks):
+            raise AnalysisError("expression `%s`: unexpected end" % what)
+        pos[0] += 1
+        return toks[pos[0] - 1]
+
+    def prim():
+        t = eat()
+        if t == "(":
+            v = level(0)
+            if eat() != ")":
+                raise AnalysisError("expression `%s`: unbalanced" % what)
+            return v
+        if t == "-":
+            return X.neg(prim())
+        if t == "+":
+            return prim()
+        m = re.fullmatch(r"(0[xX][0-9a-fA-F]+|\d+)[uUlL]*", t)
+        if m:
+            return X.C(int(m.group(1), 0))
+        if re.fullmatch(r"[A-Za-z_]\w*", t):
+            return leaf(t)
+        raise AnalysisError("expression `%s`: unexpected token %s" % (what, t))
+
+    def level(k):
+        if k == len(CLEVELS):
+            return prim()
+        v = level(k + 1)
+        while peek() in CLEVELS[k]:
+            op = eat()
+            v = CFUN[op](v, level(k + 1))
+        return v
+    v = level(0)
+    if pos[0] != len(toks):
+        raise AnalysisError("expression `%s`: trailing tokens" % what)
+    return v
+
+
+def c_fold(txt, macros=None):
+    """value of an integer constant expression text after macro expansion (None if it is not one).
+    Only non-negative intermediate values are accepted, so C and integer arithmetic coincide."""
+    toks = c_tokens(txt)
+    if toks is None:
+        return None
+    toks = expand_tokens(toks, macros)
+    if not toks:
+        return None
+
+    def leaf(t):
+        raise Unknown(t)
+    try:
+        t = cexpr_term(toks, leaf, txt)
+        v = ev(t, {})
+    except (AnalysisError, Unknown):
+        return None
+    return v if 0 <= v < (1 << 31) else None
 
 
 def struct_members(clean, name):
@@ -432,11 +564,13 @@ class Write:
 class FM:
     """Facts about one C function on its statement CFG."""
 
-    def __init__(self, tu, fdecl, line_off=0, extra_invariant=()):
+    def __init__(self, tu, fdecl, line_off=0, extra_invariant=(), dup_ok=False):
         self.tu = tu
         self.f = fdecl
         self.off = line_off
         self.extra_invariant = set(extra_invariant)
+        self.dup_ok = dup_ok
+        self.dups = set()
         self.g = CCFG(tu, fdecl)
         self.params = [p.get("name") for p in tu.fparams(fdecl)]
         self.ptype = {p.get("name"): p.get("type", {}).get("qualType", "") for p in tu.fparams(fdecl)}
@@ -502,7 +636,8 @@ class FM:
                     elif k == "CallExpr":
                         self.calls.append((n, x))
         dup = {a for a in names if names.count(a) > 1}
-        if dup:
+        self.dups = dup
+        if dup and not self.dup_ok:
             raise AnalysisError("shadowed / duplicate local names %s: variables are identified by name" % sorted(dup))
 
     def _store(self, n, x, how, val, delta=None, postfix=False):
@@ -543,7 +678,7 @@ class FM:
         while changed:
             changed = False
             for v, ws in self.writes.items():
-                if v in self.LW.env or v not in self.locals or len(ws) != 1 or v in self.addr:
+                if v in self.LW.env or v not in self.locals or len(ws) != 1 or v in self.addr or v in self.dups:
                     continue
                 w = ws[0]
                 if w.how not in ("init", "assign") or not self._pure(w.val, self.invariant):
@@ -800,6 +935,49 @@ class FM:
 
 # ================================================================== the slice
 
+PRELUDE_NAMES = ("EINVAL", "LOGP")
+F_UTILS = "src/shared/libosmocore/include/osmocom/core/utils.h"
+
+
+def util_macros(L, body):
+    """single-line function-like macros of libosmocore's utils.h (ARRAY_SIZE, OSMO_MIN, ...) that the sliced
+    function uses, verbatim from the bundled copy (layer23 includes <osmocom/core/utils.h>)"""
+    path = os.path.join(L.repo, F_UTILS)
+    if not os.path.exists(path):
+        return [], set()
+    with open(L.unit(F_UTILS), "r", encoding="utf-8", errors="surrogateescape") as f:
+        clean = strip_comments(f.read())
+    used = set(re.findall(r"\b([A-Za-z_]\w*)\s*\(", blank_strings(strip_comments(body))))
+    lines, names = [], set()
+    for m in re.finditer(r"^[ \t]*#[ \t]*define[ \t]+(\w+)\(([^()\n]*)\)[ \t]+([^\n]*?)[ \t]*$", clean, re.M):
+        if m.group(1) in used and m.group(1) not in PRELUDE_NAMES and not m.group(3).endswith("\\"):
+            lines.append("#define %s(%s) %s" % (m.group(1), m.group(2), m.group(3)))
+            names.add(m.group(1))
+    return lines, names
+
+
+def const_macros(hdr_clean, src, first_line):
+    """Object-like macros that expand to integer constant expressions and are visible where the sliced
+    function stands: those of sysinfo.h (inside its include guard) and those sysinfo.c defines before the
+    function, outside conditional blocks.  -> (name -> replacement text, `#define` lines for the prelude).
+    The replacement lists are handed to clang verbatim, so the slice expands them the way the build does."""
+    own = "\n".join(blank_strings(strip_comments(src)).split("\n")[:max(0, first_line - 1)])
+    table, order = {}, []
+    for nm, txt in active_defines(hdr_clean, 1) + active_defines(own, 0):
+        if nm in table and " ".join(table[nm].split()) != " ".join(txt.split()):
+            txt = AMBIGUOUS
+        if nm not in table:
+            order.append(nm)
+        table[nm] = txt
+    good = {}
+    for nm in order:
+        if nm not in PRELUDE_NAMES and c_fold(table[nm], table) is not None:
+            good[nm] = table[nm]
+    every = ["#define %s %s" % (nm, table[nm]) for nm in order
+             if nm not in PRELUDE_NAMES and table[nm] != AMBIGUOUS and not table[nm].endswith("\\")]
+    return good, ["#define %s %s" % (nm, good[nm]) for nm in order if nm in good], every
+
+
 def build_slice(L):
     """(FM of the sliced decoder, constants read from sysinfo.h)"""
     with open(L.unit(F_SYS), "r", encoding="utf-8", errors="surrogateescape") as f:
@@ -807,13 +985,13 @@ def build_slice(L):
     body, first = slice_function(src, FN)
     with open(L.unit(F_HDR), "r", encoding="utf-8", errors="surrogateescape") as f:
         hdr = blank_strings(strip_comments(f.read()))
-    macros = read_defines(hdr)
+    macros, _, mac_lines = const_macros(hdr, src, first)     # unused macros are never expanded: all are handed over verbatim
     ft = {}
-    for k, v in macros.items():
+    for k, v in read_defines(hdr).items():
         if k.startswith("FREQ_TYPE_"):
-            iv = c_int(v, macros)
+            iv = c_int(v, macros) if k in macros else None
             if iv is None:
-                raise AnalysisError("value of %s in sysinfo.h is not an integer literal: %r" % (k, v))
+                raise AnalysisError("value of %s in sysinfo.h is not an integer constant: %r" % (k, v))
             ft[k] = iv
     for need in ("FREQ_TYPE_SERV", "FREQ_TYPE_HOPP"):
         if need not in ft:
@@ -839,7 +1017,7 @@ def build_slice(L):
         if fm.get("mask", (None,))[0] != "uint8_t":
             raise AnalysisError("struct gsm_sysinfo_freq.mask is not uint8_t in %s" % F_IE)
     pre = ["#include <stdint.h>", "#define EINVAL 22", "#define LOGP(ss, level, fmt, args...) ((void)(0, ## args))"]
-    pre += ["#define %s 0x%02x" % (k, v) for k, v in sorted(ft.items())]
+    pre += mac_lines + util_macros(L, body)[0]
     pre += ["struct gsm_sysinfo_freq { uint8_t mask; } __attribute__ ((packed));",
             "struct gsm48_sysinfo { struct gsm_sysinfo_freq freq[%d]; uint16_t hopping[%d]; uint8_t hopp_len; };" % (
                 ext["freq"], ext["hopping"])]
@@ -895,6 +1073,10 @@ class Dec:
         for base in [self.P_FREQ, self.P_MA, self.P_HOP, self.P_CNT] + sorted(self.arrays):
             for (n, a) in fm.uses.get(base, []):
                 p = fm.parent(a)
+                if base in self.arrays and self.const_extent(base) and self.in_sizeof(a):
+                    # operand of sizeof on a fixed-size array: unevaluated, no element is accessed; the value
+                    # comes from the declared type (TU.fold)
+                    continue
                 if kind(p) == "ArraySubscriptExpr" and strip(kids(p)[0]) is a:
                     self.acc.append((n, p, base, kids(p)[1]))
                 elif kind(p) == "UnaryOperator" and p.get("opcode") == "*" and base == self.P_CNT:
@@ -913,54 +1095,20 @@ class Dec:
 
     def extent_term(self, txt):
         """term of an array-extent text as clang prints it in the type"""
-        toks = re.findall(r"\s*(0[xX][0-9a-fA-F]+|\d+|\w+|<<|>>|[-+*/%&|^()])", txt)
-        if "".join(toks) != re.sub(r"\s+", "", txt):
+        toks = c_tokens(txt)
+        if toks is None:
             raise AnalysisError("array extent `%s` outside the expression vocabulary" % txt)
-        pos = [0]
         fm = self.fm
 
-        def peek():
-            return toks[pos[0]] if pos[0] < len(toks) else None
-
-        def eat():
-            pos[0] += 1
-            return toks[pos[0] - 1]
-
-        def prim():
-            t = eat()
-            if t == "(":
-                v = level(0)
-                if eat() != ")":
-                    raise AnalysisError("array extent `%s`: unbalanced" % txt)
-                return v
-            if re.fullmatch(r"0[xX][0-9a-fA-F]+|\d+", t):
-                return X.C(int(t, 0))
-            if re.fullmatch(r"[A-Za-z_]\w*", t):
-                if t in fm.LW.env:
-                    return fm.LW.env[t]
-                if t in fm.invariant:
-                    return X.V(t)
-                if t in fm.tu.enums:
-                    return X.C(fm.tu.enums[t])
-                raise AnalysisError("array extent `%s` depends on `%s`, which is not invariant" % (txt, t))
-            raise AnalysisError("array extent `%s`: unexpected token %s" % (txt, t))
-
-        LEVELS = [["|"], ["^"], ["&"], ["<<", ">>"], ["+", "-"], ["*", "/", "%"]]
-        FUN = {"|": X.bor, "^": X.bxor, "&": X.band, "<<": X.shl, ">>": X.shr, "+": X.add, "-": X.sub,
-               "*": X.mul, "/": X.div, "%": X.mod}
-
-        def level(k):
-            if k == len(LEVELS):
-                return prim()
-            v = level(k + 1)
-            while peek() in LEVELS[k]:
-                op = eat()
-                v = FUN[op](v, level(k + 1))
-            return v
-        v = level(0)
-        if pos[0] != len(toks):
-            raise AnalysisError("array extent `%s`: trailing tokens" % txt)
-        return v
+        def leaf(t):
+            if t in fm.LW.env:
+                return fm.LW.env[t]
+            if t in fm.invariant:
+                return X.V(t)
+            if t in fm.tu.enums:
+                return X.C(fm.tu.enums[t])
+            raise AnalysisError("array extent `%s` depends on `%s`, which is not invariant" % (txt, t))
+        return cexpr_term(toks, leaf, txt)
 
     def base_of(self, lv):
         """role of an lvalue: array / pointer-parameter name it goes through"""
@@ -990,6 +1138,21 @@ class Dec:
             return kind(b) == "DeclRefExpr" and b.get("referencedDecl", {}).get("name") == self.P_CNT and \
                 self.fm.tu.fold(kids(e)[1]) == 0
         return False
+
+    def const_extent(self, arr):
+        return X.is_c(self.arrays[arr][2])
+
+    def in_sizeof(self, a):
+        cur = self.fm.tu.parent.get(id(a))
+        while cur is not None and cur is not self.fm.f and kind(cur) not in ("CompoundStmt", "IfStmt", "ForStmt", "WhileStmt", "DoStmt"):
+            if kind(cur) == "UnaryExprOrTypeTraitExpr":
+                return cur.get("name") == "sizeof"
+            cur = self.fm.tu.parent.get(id(cur))
+        return False
+
+    def is_cnt_term(self, t):
+        """lowered `*hopp_len` / `hopp_len[0]`"""
+        return t == ("call", "deref", X.V(self.P_CNT)) or t == ("idx", X.V(self.P_CNT), X.C(0))
 
     def ext_value(self, base, lenv):
         """extent of a buffer for bitmap length lenv"""
@@ -1460,7 +1623,21 @@ def r4_order(L, D):
         # index past the list ends decoding
         lim = [(a[2], a[3]) for a in fm.atoms(H) if cnt and a[0] == ("cmp", "<", X.V(b), X.V(cnt)) and a[1] and fm.stable(H, a, [b, cnt])]
         ends = bool(lim) and all(H.id not in fm.reach_succ(c, label=(not l)) for (c, l) in lim)
-        other = [x for (x, ats) in exits_of(fm, l2) if not any(t == ("cmp", "<", X.V(b), X.V(cnt)) and not p for (t, p) in ats)]
+        other = []
+        h_atoms = {(a[0], a[1]) for a in fm.atoms(H)}
+        for (x, ats) in exits_of(fm, l2):
+            if any(t == ("cmp", "<", X.V(b), X.V(cnt)) and not p for (t, p) in ats):
+                continue
+            caps = cap_tests(ats, D.is_cnt_term, {D.P_LEN})
+            verdict = cap_exit(fm, D, l2, dom, caps) if caps else None
+            if verdict is None or (not verdict[0] and not all(a in h_atoms or is_cap(a, D.is_cnt_term) for a in ats)):
+                other.append(x)         # not a test of the output counter, or one whose other conditions are not those of the store
+                continue
+            L.ob(R, F_SYS, FN, "an exit of the bitmap walk on the output counter (`%s`) can be taken only when no bit is left to walk, "
+                 "so no flagged channel is dropped (the list may hold as many entries as bits are walked, <= %d)" % (
+                     ctext(x.cond) if getattr(x, "cond", None) else "exit", MAXHOP),
+                 "exit threshold >= number of walked bits (8*%s) for every accepted %s" % (D.P_LEN, D.P_LEN), verdict[1], verdict[0],
+                 fm.nline(x))
         L.ob(R, F_SYS, FN, "the bitmap walk is left early only for a set bit past the list", "no other early exit",
              "no other early exit" if not other else "exit at line %s" % fm.nline(other[0]), not other, fm.line(l2["stmt"]))
         frozen = cnt is not None and not any(wc.node.id in fm.reach_succ(l2["cond"]) for wc in fm.writes.get(cnt, []))
@@ -1488,6 +1665,52 @@ def r4_order(L, D):
         L.ob(R, F_SYS, FN, "write to the frequency table `%s` only maintains FREQ_TYPE_HOPP and only for SI4" % ctext(fw.ast)[:60],
              "|= / &= ~ FREQ_TYPE_HOPP under `%s`" % D.P_SI4,
              "%s%s" % (ctext(fw.ast)[:60], "" if under else " (not under `%s`)" % D.P_SI4), under and only_hopp, fm.line(fw.ast))
+
+
+def cap_tests(ats, is_counter, params):
+    """atoms of an exit that compare a counter with an invariant bound: [(threshold term, relation)] --
+    the exit is taken only while counter >= threshold ('>=') or counter == threshold ('==')"""
+    out = []
+    for (t, p) in ats:
+        if t[0] != "cmp":
+            continue
+        th = None
+        if t[1] == "<" and p and is_counter(t[3]):
+            th = (X.add(t[2], X.C(1)), ">=")          # T < counter
+        elif t[1] == "<" and not p and is_counter(t[2]):
+            th = (t[3], ">=")                          # !(counter < T)
+        elif t[1] == "==" and p and (is_counter(t[2]) or is_counter(t[3])):
+            th = (t[3] if is_counter(t[2]) else t[2], "==")
+        if th is not None and free_vars(th[0]) <= set(params):
+            out.append(th)
+    return out
+
+
+def is_cap(atom, is_counter):
+    return bool(cap_tests([atom], is_counter, free_vars(atom[0])))
+
+
+def cap_exit(fm, D, li, dom, caps):
+    """C20.R4, clause "the decoded hopping list contains exactly the cell-allocation channels whose bit is set":
+    decide an early exit that is taken only when the output counter has reached a threshold T.
+    The counter is 0 before the walk and grows by at most 1 per iteration (C20.R2), so in iteration k it is
+    <= k before the store and <= k+1 after it: with T >= number of iterations the exit can only be taken
+    behind the last store (nothing is lost); with T below it, the allocation that flags the first T+1
+    channels of a cell allocation of > T channels loses a channel.  -> (ok, text) | None (cannot fold)"""
+    worst = None
+    for v in dom:
+        try:
+            T = max(ev(t, {D.P_LEN: v}) for (t, _) in caps)
+            trips = max(0, fm.loop_hi(li, {D.P_LEN: v}) - li["init"])
+        except Unknown:
+            return None
+        if T < trips and (worst is None or trips - T > worst[1] - worst[0]):
+            worst = (T, trips, v)
+    if worst is None:
+        return True, "threshold >= walked bits for %s in %s" % (D.P_LEN, span(dom))
+    T, trips, v = worst
+    return False, "exit once the counter is %d while %d bits are walked for %s = %d: flagged channel no. %d is dropped" % (
+        max(T, 0), trips, D.P_LEN, v, max(T, 0) + 1)
 
 
 def exits_of(fm, li):
@@ -1539,6 +1762,552 @@ def bit_shape(t, ma):
         if is_ma(a):
             return (a[2], X.C(0))
     return None
+
+
+# ============================================================== caller slices
+#
+# The callers live in layer23 files that cannot be parsed as translation units.  Their definitions are
+# sliced out and parsed behind a *synthesised* prelude: everything the function mentions but does not
+# declare is declared opaquely (K&R prototypes for callees, `extern const int` for upper-case constants,
+# structs that hold just the members the function touches -- with the real scalar type when the struct is
+# found in a header of the tree, `int` otherwise).  The rules interpret nothing but integer literals, the
+# function's own locals (whose declarations are real source text) and the guards between them; whatever
+# comes from the synthesised declarations stays an opaque leaf.
+
+C_KEYWORDS = set("""if else for while do switch case default break continue return goto sizeof struct union enum const
+static int unsigned signed char short long void volatile register typedef extern inline float double
+uint8_t uint16_t uint32_t uint64_t int8_t int16_t int32_t int64_t size_t ssize_t bool NULL""".split())
+SCALAR = re.compile(r"(const\s+)?(u?int(8|16|32|64)_t|int|unsigned int|unsigned|char|unsigned char|signed char|short|"
+                    r"unsigned short|long|unsigned long|size_t|bool)")
+
+
+class HeaderIndex:
+    """struct definitions found by the lexer in the headers of the tree (layer23 includes, bundled libosmocore gsm/)"""
+    DIRS = ("src/host/layer23/include", "src/shared/libosmocore/include/osmocom/gsm")
+
+    def __init__(self, L):
+        self.L = L
+        self.files = None
+        self.cache = {}
+
+    def _load(self):
+        self.files = []
+        for d in self.DIRS:
+            for dp, dn, fns in os.walk(os.path.join(self.L.repo, d)):
+                dn.sort()
+                for fn in sorted(fns):
+                    if fn.endswith(".h"):
+                        path = os.path.join(dp, fn)
+                        with open(path, "r", encoding="utf-8", errors="surrogateescape") as f:
+                            self.files.append((os.path.relpath(path, self.L.repo), f.read()))
+
+    def struct(self, name):
+        """(relpath, members {name: (type, extent)}, ordered member names, macros of the header) | None"""
+        if name in self.cache:
+            return self.cache[name]
+        if self.files is None:
+            self._load()
+        hit = None
+        for rel, raw in self.files:
+            if not re.search(r"\bstruct\s+%s\s*\{" % re.escape(name), raw):
+                continue
+            clean = blank_strings(strip_comments(raw))
+            if not re.search(r"\bstruct\s+%s\s*\{" % re.escape(name), clean):
+                continue
+            self.L.unit(rel)
+            mem = struct_members(clean, name)
+            hit = (rel, mem, list(mem), read_defines(clean))
+            break
+        self.cache[name] = hit
+        return hit
+
+
+def _chain_tree(txt, var, node):
+    """record the member-access chains that start at variable `var` in the tree `node`"""
+    for m in re.finditer(r"(?<![\w.>])%s\b" % re.escape(var), txt):
+        if txt[:m.start()].rstrip().endswith(("->", ".")):
+            continue
+        cur, i = node, m.end()
+        while True:
+            while i < len(txt) and txt[i] in " \t\r\n":
+                i += 1
+            if txt.startswith("->", i) or (txt.startswith(".", i) and not txt.startswith("...", i)):
+                arrow = txt.startswith("->", i)
+                i += 2 if arrow else 1
+                mm = re.match(r"\s*([A-Za-z_]\w*)", txt[i:])
+                if not mm:
+                    break
+                i += mm.end()
+                if arrow:
+                    cur["arrow"] = True
+                cur = cur["kids"].setdefault(mm.group(1), {"kids": {}, "arrow": False, "array": False})
+            elif txt.startswith("[", i):
+                cur["array"] = True
+                i = match_close(txt, i, "[", "]") + 1
+            else:
+                break
+
+
+def _emit_members(node, real, macros, ind):
+    out = []
+    order = list(real) if real else []
+    for nm, sub in sorted(node["kids"].items(), key=lambda kv: order.index(kv[0]) if kv[0] in order else len(order)):
+        if sub["kids"]:
+            body = " ".join(_emit_members(sub, None, None, ind + 1))
+            decl = "struct { %s } %s%s%s;" % (body, "*" if sub["arrow"] else "", nm, "[1]" if sub["array"] and not sub["arrow"] else "")
+        else:
+            decl = None
+            if real and nm in real:
+                typ, ext = real[nm]
+                typ = " ".join(typ.split())
+                if SCALAR.fullmatch(typ):
+                    if ext is None:
+                        decl = "%s %s;" % (typ, nm)
+                    else:
+                        e = 0 if not ext.strip() else c_fold(ext, macros)
+                        if e is not None:
+                            decl = "%s %s[%d];" % (typ, nm, e)
+            if decl is None:
+                decl = "int %s%s;" % (nm, "[1]" if sub["array"] else "")
+        out.append(decl)
+    return out
+
+
+def synth_prelude(L, H, body, fname, mac_names, mac_lines):
+    """declarations for everything the sliced function `fname` uses but does not declare"""
+    txt = blank_strings(strip_comments(body))
+    # struct types and the variables declared with them
+    trees = {}
+    for m in re.finditer(r"\bstruct\s+(\w+)", txt):
+        trees.setdefault(m.group(1), {"kids": {}, "arrow": False, "array": False})
+    for m in re.finditer(r"\bstruct\s+(\w+)\s*\*?\s*(?:const\s+)?(\w+)\s*(?=[\[;,=)])", txt):
+        _chain_tree(txt, m.group(2), trees[m.group(1)])
+    pre = ["#include <stdint.h>", "#include <stddef.h>", "#define LOGP(ss, level, fmt, args...) ((void)(0, ## args))"]
+    pre += mac_lines
+    real_used = {}
+    for nm in sorted(trees):
+        hit = H.struct(nm)
+        real, macros = (hit[1], dict(hit[3])) if hit else (None, None)
+        if hit:
+            real_used[nm] = hit
+        mem = _emit_members(trees[nm], real, macros, 1)
+        pre.append("struct %s { %s };" % (nm, " ".join(mem) if mem else "char vsa_opaque_;"))
+    # callees and upper-case constants
+    declared = set(C_KEYWORDS) | set(mac_names) | {"LOGP", fname}
+    funs, consts = [], []
+    for m in re.finditer(r"(?<![\w.>])([A-Za-z_]\w*)\b(\s*\()?", txt):
+        nm = m.group(1)
+        if nm in declared or txt[:m.start()].rstrip().endswith(("->", ".", "struct", "goto")):
+            continue
+        if m.group(2):
+            declared.add(nm)
+            funs.append(nm)
+        elif re.fullmatch(r"[A-Z][A-Z0-9_]*", nm) and not (re.match(r"\s*:", txt[m.end():]) and
+                                                          txt[:m.start()].rstrip()[-1:] in (";", "{", "}")):
+            declared.add(nm)
+            consts.append(nm)
+    pre += ["int %s();" % f for f in funs]
+    pre += ["extern const int %s;" % c for c in consts]
+    return pre, real_used, funs
+
+
+def caller_slice(L, H, rel, fname, hdr_clean):
+    """FM of function `fname` of layer23 file `rel`, parsed behind a synthesised prelude"""
+    with open(L.unit(rel), "r", encoding="utf-8", errors="surrogateescape") as f:
+        src = f.read()
+    body, first = slice_function(src, fname)
+    mac, mac_lines, _ = const_macros(hdr_clean, src, first)
+    ulines, unames = util_macros(L, body)
+    pre, real_used, funs = synth_prelude(L, H, body, fname, set(mac) | unames, mac_lines + ulines)
+    text = "\n".join(pre) + "\n" + body + "\n"
+    tmp = tempfile.mkdtemp(prefix="vsa-c20-", dir=os.environ.get("TMPDIR") or "/var/tmp")
+    try:
+        path = os.path.join(tmp, "caller.c")
+        with open(path, "w", encoding="utf-8", errors="surrogateescape") as f:
+            f.write(text)
+        tu = TU(L.repo, "plain", "caller.c", abs_file=path, extra_flags=("-std=gnu89",), L=L)
+    finally:
+        shutil.rmtree(tmp, ignore_errors=True)
+    fd = tu.func(fname)
+    L.fn(rel, fname)
+    fm = FM(tu, fd, line_off=first - (len(pre) + 1), dup_ok=True)
+    fm.real_structs = real_used
+    fm.opaque_callees = set(funs)
+    return fm
+
+
+def leaves(t, out=None):
+    """maximal opaque subterms (variables, memory reads, calls) of a term"""
+    out = set() if out is None else out
+    if t[0] in ("v", "idx", "call"):
+        out.add(t)
+    elif t[0] != "c":
+        for x in t[1:]:
+            if isinstance(x, tuple):
+                leaves(x, out)
+    return out
+
+
+def subst(t, m):
+    if t in m:
+        return X.C(m[t])
+    if t[0] in ("c", "v"):
+        return t
+    return tuple(subst(x, m) if isinstance(x, tuple) else x for x in t)
+
+
+def consts_of(t, out):
+    if t[0] == "c":
+        out.add(abs(t[1]))
+    else:
+        for x in t[1:]:
+            if isinstance(x, tuple):
+                consts_of(x, out)
+    return out
+
+
+def unit_linear(t, allowed):
+    """t is a sum of constants and +-1 * leaf for leaves in `allowed`"""
+    terms = t[1:] if t[0] == "+" else (t,)
+    for x in terms:
+        if X.is_c(x):
+            continue
+        if x[0] == "*" and len(x) == 3 and X.is_c(x[1]) and x[1][1] in (1, -1):
+            x = x[2]
+        if x not in allowed:
+            return False
+    return True
+
+
+def ptr_split(fm, e):
+    """pointer expression -> (base AST node, constant element offset) | None"""
+    e = strip(e)
+    k = kind(e)
+    if k == "BinaryOperator" and e.get("opcode") in ("+", "-"):
+        a, b = kids(e)
+        vb, va = fm.tu.fold(b), fm.tu.fold(a)
+        if vb is not None:
+            r = ptr_split(fm, a)
+            return None if r is None else (r[0], r[1] + (vb if e.get("opcode") == "+" else -vb))
+        if va is not None and e.get("opcode") == "+":
+            r = ptr_split(fm, b)
+            return None if r is None else (r[0], r[1] + va)
+        return None
+    if k == "UnaryOperator" and e.get("opcode") == "&":
+        t = strip(kids(e)[0])
+        if kind(t) == "ArraySubscriptExpr":
+            vi = fm.tu.fold(kids(t)[1])
+            r = ptr_split(fm, kids(t)[0])
+            return None if r is None or vi is None else (r[0], r[1] + vi)
+        return None
+    if k in ("DeclRefExpr", "MemberExpr"):
+        return (e, 0)
+    return None
+
+
+def qt_of(n):
+    return " ".join((n.get("type", {}).get("qualType", "") or "").replace("const ", "").split())
+
+
+def r6_readable(L, tier):
+    """C20.R6 -- caller half of the clause "no bitmap makes the decoder read ... outside its buffers".
+    The decoder reads ma[0 .. len-1] for every accepted length (C20.R4 proves exactly these indices, C20.R1
+    that nothing is read for len > 8).  So at every call site the octets [bitmap, bitmap + len) must exist:
+      * bitmap inside a fixed array (`cd->mob_alloc_lv + 1`): offset + len <= extent for every len in 1..8 the
+        dominating guards admit (extent from the real struct declaration);
+      * bitmap behind a message cursor (`data + 2`, length `data[1]`) that is advanced in lock-step with a
+        remaining-octets counter (`payload_len`): the guards dominating the call must imply
+        offset + len <= remaining.  The guard atoms over {remaining, length octet} are unit-coefficient linear
+        inequalities; they are folded over the finite box (remaining in -C..C+300, length octet in 0..255) which
+        contains a counterexample whenever one exists.
+    A counterexample is a message the parser accepts and for which the decoder reads behind the message, so the
+    rule is a necessary condition of the property; anything it cannot classify is an ANALYSIS-ERROR."""
+    R = "C20.R6"
+    with open(L.unit(F_HDR), "r", encoding="utf-8", errors="surrogateescape") as f:
+        hdr = blank_strings(strip_comments(f.read()))
+    H = HeaderIndex(L)
+    nsites = 0
+    for rel in caller_files(L, tier):
+        cf = CFile(L, rel)
+        for fname in sorted({fi[0] for (fi, pos, args) in cf.calls(FN)}):
+            fm = caller_slice(L, H, rel, fname, hdr)
+            for (n, c) in fm.calls:
+                if ctext(kids(c)[0]) != FN:
+                    continue
+                nsites += 1
+                r6_site(L, R, fm, rel, fname, n, c)
+    L.floor(R, "call sites of %s analysed for readable bitmap octets" % FN, nsites, 2)
+
+
+def r6_site(L, R, fm, rel, fname, n, c):
+    args = kids(c)[1:]
+    if len(args) != 6:
+        raise AnalysisError("call of %s() in %s() with %d arguments" % (FN, fname, len(args)))
+    sp = ptr_split(fm, args[1])
+    if sp is None or sp[1] < 0:
+        raise AnalysisError("%s(): bitmap argument `%s` is not `buffer + constant` (unclassifiable)" % (fname, ctext(args[1])[:50]))
+    base, off = sp
+    bname = ctext(base)
+    lt = fm.lower(args[2])
+    lconst = fm.tu.fold(args[2])
+    lnode, ldef = strip(args[2]), None
+    if lconst is None and lt[0] == "v" and lt[1] in fm.locals and lt[1] not in fm.dups and lt[1] not in fm.addr:
+        defs = fm.reaching_defs(lt[1], n)
+        if len(defs) != 1 or defs[0] == "undef" or defs[0].how not in ("init", "assign"):
+            raise AnalysisError("%s(): length variable `%s` has no single definition at the call" % (fname, lt[1]))
+        ldef = defs[0]
+        lnode = strip(ldef.val)
+    if lconst is None and qt_of(lnode) not in ("uint8_t", "unsigned char"):
+        raise AnalysisError("%s(): length argument `%s` is a value of type %r (only an octet or a constant is modelled)" % (
+            fname, ctext(args[2])[:40], qt_of(lnode)))
+    xdom = [lconst] if lconst is not None else list(range(0, 256))
+    bt = qt_of(base)
+    m = re.fullmatch(r"(.+?)\s*\[(\d+)\]", bt)
+    where = "call of %s() in %s()" % (FN, fname)
+    if m:
+        # ---- fixed array
+        if _SIZE1.fullmatch(m.group(1)) is None:
+            raise AnalysisError("%s(): bitmap buffer `%s` has element type %r (octets expected)" % (fname, bname, m.group(1)))
+        ext = int(m.group(2))
+        if kind(base) == "MemberExpr":
+            st = re.sub(r"[\s\*]+$", "", qt_of(strip(kids(base)[0]))).replace("struct ", "")
+            real = fm.real_structs.get(st)
+            if real is None or base.get("name") not in real[1] or not SCALAR.fullmatch(" ".join(real[1][base.get("name")][0].split())):
+                raise AnalysisError("%s(): extent of `%s` unknown (struct %s not found in the headers of the tree)" % (fname, bname, st))
+            decl = "%s %s[%d] in struct %s (%s)" % (m.group(1), base.get("name"), ext, st, real[0])
+        else:
+            nm = base.get("referencedDecl", {}).get("name")
+            if nm not in fm.locals or nm in fm.dups:
+                raise AnalysisError("%s(): bitmap buffer `%s` is not a local array (unclassifiable)" % (fname, bname))
+            decl = "%s %s[%d]" % (m.group(1), nm, ext)
+        xl = {lt} | ({fm.lower(ldef.val)} if ldef is not None else set())
+        use = usable_atoms(fm, fname, n, xl, set(), [lt[1]] if ldef is not None else [])
+        bad = None
+        for x in xdom:
+            if 1 <= x <= MAXLEN and holds(use, {k: x for k in xl}) and off + x > ext:
+                bad = x
+                break
+        L.ob(R, rel, fname, "%s: the bitmap `%s` of `%s` octets lies inside %s for every length the decoder reads (1..%d)" % (
+            where, ctext(args[1]), ctext(args[2]), decl, MAXLEN),
+            "%d + len <= %d" % (off, ext), "holds for len in 1..%d" % MAXLEN if bad is None else
+            "len = %d needs %d octets, the array has %d" % (bad, off + bad, ext), bad is None, fm.line(c))
+        return
+    # ---- message cursor with a remaining-octets counter
+    if kind(base) != "DeclRefExpr" or "*" not in bt or _SIZE1.fullmatch(bt.replace("*", "").strip()) is None:
+        raise AnalysisError("%s(): bitmap buffer `%s` (%s) is neither an octet array nor an octet cursor" % (fname, bname, bt))
+    P = base.get("referencedDecl", {}).get("name")
+    if P not in fm.locals or P in fm.dups or P in fm.addr:
+        raise AnalysisError("%s(): cursor `%s` is not a plain local pointer (unclassifiable)" % (fname, P))
+    Rv, pairs = remaining_of(fm, fname, P)
+    if qt_of(fm.locals[Rv]) not in ("int", "long", "ssize_t", "int32_t", "int16_t"):
+        raise AnalysisError("%s(): the remaining-octets counter `%s` has type %r (signed arithmetic is modelled)" % (fname, Rv, qt_of(fm.locals[Rv])))
+    # no opaque macro gets hold of the cursor / counter by name
+    for (cn, cc) in fm.calls:
+        cal = ctext(kids(cc)[0])
+        if re.fullmatch(r"[A-Z][A-Z0-9_]*", cal) and cal in fm.opaque_callees:
+            for x in walk(cc):
+                if kind(x) == "DeclRefExpr" and x.get("referencedDecl", {}).get("name") in (P, Rv):
+                    raise AnalysisError("%s(): `%s` is handed to the unknown macro %s()" % (fname, x["referencedDecl"]["name"], cal))
+    for w in fm.memwrites:
+        if X.V(P) in subterms(fm.norm(kids(w.ast)[0], True)[0]):
+            raise AnalysisError("%s(): store through the message cursor `%s`" % (fname, P))
+    # the length octet: P[b], directly or through a local that holds it
+    xl, extra, src = {lt}, [], lt
+    if ldef is not None:
+        src = fm.lower(ldef.val)
+        if any(n.id in fm.reach_succ(w.node, skip=[ldef.node]) for v in (P, lt[1]) for w in fm.writes.get(v, []) if w is not ldef):
+            raise AnalysisError("%s(): `%s` or `%s` changes between the definition of the length and the call" % (fname, P, lt[1]))
+        xl.add(src)
+        extra = [lt[1]]
+    if lconst is None and not (src[0] == "idx" and src[1] == X.V(P) and X.is_c(src[2]) and src[2][1] >= 0):
+        raise AnalysisError("%s(): length argument `%s` is not an octet read through the cursor `%s`" % (fname, ctext(args[2])[:40], P))
+    use = usable_atoms(fm, fname, n, xl, {X.V(Rv)}, [P, Rv] + extra, cursor=P)
+    cs = {off, MAXLEN}
+    for (t, p) in use:
+        consts_of(t, cs)
+    C = max(cs) + 2
+    bad = None
+    for r in list(range(0, C + 300)) + list(range(-1, -C - 1, -1)):
+        for x in xdom:
+            if 1 <= x <= MAXLEN and off + x > r:
+                vals = {X.V(Rv): r}
+                vals.update({k: x for k in xl})
+                if holds(use, vals):
+                    bad = (r, x)
+                    break
+        if bad:
+            break
+    gtxt = " && ".join(sorted({("%s" if p else "!%s") % X.show(t) for (t, p) in use})) or "none"
+    L.floor(R, "advances of the message cursor `%s` paired with `%s` in %s()" % (P, Rv, fname), pairs, 1)
+    for txt in getattr(fm, "assumed", []):
+        L.assume(txt)
+    L.ob(R, rel, fname, "%s: the guards dominating the call imply that the bitmap `%s` of `%s` octets lies inside the `%s` octets "
+         "left at the message cursor `%s`" % (where, ctext(args[1]), ctext(args[2]), Rv, P),
+         "%d + %s <= %s for every admitted value" % (off, ctext(args[2]), Rv),
+         "implied by %s (cursor and counter advance together at %d places)" % (gtxt, pairs) if bad is None else
+         "guards (%s) admit %s = %d with %s = %d: the decoder reads %d octet(s) behind the message" % (
+             gtxt, Rv, bad[0], ctext(args[2]), bad[1], off + bad[1] - max(bad[0], 0)),
+         bad is None, fm.line(c))
+
+
+_SIZE1 = re.compile(r"(uint8_t|unsigned char|char|int8_t|signed char)")
+
+
+def holds(use, vals):
+    for (t, p) in use:
+        try:
+            if bool(ev(subst(t, vals), {})) != p:
+                return False
+        except Unknown as u:
+            raise AnalysisError("guard `%s` cannot be folded (%s)" % (X.show(t), u))
+    return True
+
+
+def usable_atoms(fm, fname, n, xleaves, rleaves, names, cursor=None):
+    """guard atoms at `n` that speak only about the length octet / the remaining counter: [(term, pol)].
+    Atoms about other things are independent of the claim and dropped; atoms that mix, that are not
+    unit-coefficient linear comparisons, or that tested a value which changed since, end the analysis."""
+    out = []
+    mine = set(xleaves) | set(rleaves)
+    mnames = {y[1] for x in mine for y in subterms(x) if y[0] == "v"} | set(names)
+    for (c, l) in fm.g.guards(n):
+        if (c.kind != "cond" or not isinstance(l, bool)) and getattr(c, "cond", None) is not None:
+            if any(kind(x) == "DeclRefExpr" and x.get("referencedDecl", {}).get("name") in mnames for x in walk(c.cond)):
+                raise AnalysisError("%s(): the call is guarded by a %s on `%s` (only if-conditions are folded)" % (
+                    fname, c.kind, ctext(c.cond)[:40]))
+    for a in fm.atoms(n):
+        t, p = a[0], a[1]
+        lv = leaves(t)
+        rel = lv & mine
+        for x in lv - mine:
+            if subterms(x) & mine:
+                raise AnalysisError("%s(): guard `%s` uses the length inside `%s`, which the rule cannot fold" % (fname, X.show(t), X.show(x)))
+        if rel:
+            for x in walk(a[2].cond):
+                if kind(x) in ("ImplicitCastExpr", "CStyleCastExpr") and x.get("castKind") in ("IntegralCast", None) and \
+                        re.search(r"\b(unsigned|size_t|uint\d+_t)\b", x.get("type", {}).get("qualType", "")) and \
+                        any(kind(y) == "DeclRefExpr" and y.get("referencedDecl", {}).get("name") in names for y in walk(x)):
+                    raise AnalysisError("%s(): guard `%s` compares after a conversion to %s (wrap-around not modelled)" % (
+                        fname, ctext(a[2].cond)[:50], x.get("type", {}).get("qualType")))
+        if cursor is not None:
+            for x in lv - mine:
+                if X.V(cursor) in subterms(x) and not (x[0] == "idx" and x[1] == X.V(cursor) and X.is_c(x[2])):
+                    raise AnalysisError("%s(): guard `%s` reads the message in a way the rule cannot classify" % (fname, X.show(t)))
+        if not rel:
+            continue
+        if lv - mine:
+            raise AnalysisError("%s(): guard `%s` mixes the length with other values (unclassifiable)" % (fname, X.show(t)))
+        if t[0] == "cmp":
+            if not (unit_linear(t[2], mine) and unit_linear(t[3], mine)):
+                raise AnalysisError("%s(): guard `%s` is not a unit-coefficient linear comparison" % (fname, X.show(t)))
+        elif t not in mine:
+            raise AnalysisError("%s(): guard `%s` has a shape the rule cannot fold" % (fname, X.show(t)))
+        mentioned = set()
+        for x in rel:
+            for y in subterms(x):
+                if y[0] == "v" and y[1] in names:
+                    mentioned.add(y[1])
+        if mentioned and not fm.stable(n, a, sorted(mentioned)):
+            raise AnalysisError("%s(): guard `%s` tests a value that changes before the call" % (fname, X.show(t)))
+        out.append((t, p))
+    return out
+
+
+def remaining_of(fm, fname, P):
+    """the integer local that counts the octets left at cursor P: every advance `P += k` stands next to
+    `R -= k` with the same k, every other write of R is its initialisation from the message length.
+    -> (R, number of paired advances)"""
+    adv = [w for w in fm.writes.get(P, []) if w.how not in ("init",)]
+    inits = [w for w in fm.writes.get(P, []) if w.how == "init"]
+    if len(inits) != 1 or not adv:
+        raise AnalysisError("%s(): cursor `%s` has %d initialisations and %d advances: the remaining-octets counter cannot be identified" % (
+            fname, P, len(inits), len(adv)))
+    Rn, used = None, set()
+    for w in adv:
+        if w.how != "aug+=":
+            raise AnalysisError("%s(): cursor `%s` is changed by `%s` (only `+=` is modelled)" % (fname, P, ctext(w.ast)[:40]))
+        k = fm.lower(w.val)
+        part = None
+        nb = []
+        if len(w.node.succ) == 1 and len(w.node.succ[0][0].pred) == 1:
+            nb.append((w.node.succ[0][0], "after"))
+        if len(w.node.pred) == 1 and len(w.node.pred[0][0].succ) == 1:
+            nb.append((w.node.pred[0][0], "before"))
+        for (q, side) in nb:
+            for v, ws in fm.writes.items():
+                for w2 in ws:
+                    if w2.node is q and w2.how == "aug-=" and v in fm.locals and v not in fm.dups and v not in fm.addr and \
+                            "*" not in qt_of(fm.locals[v]) and fm.lower(w2.val) == k:
+                        first_writes = P if side == "after" else v
+                        if X.V(first_writes) in subterms(k):
+                            raise AnalysisError("%s(): the amount `%s` is re-evaluated after `%s` changed" % (fname, X.show(k), first_writes))
+                        part = (v, w2)
+        if part is None:
+            raise AnalysisError("%s(): advance `%s` has no matching decrement of a remaining-octets counter next to it" % (
+                fname, ctext(w.ast)[:40]))
+        if Rn is not None and part[0] != Rn:
+            raise AnalysisError("%s(): cursor `%s` is paired with two counters (%s, %s)" % (fname, P, Rn, part[0]))
+        Rn = part[0]
+        used.add(id(part[1]))
+    rest = [w for w in fm.writes.get(Rn, []) if id(w) not in used]
+    if len(rest) != 1 or rest[0].how != "init":
+        raise AnalysisError("%s(): counter `%s` is written at places that are not paired with the cursor" % (fname, Rn))
+    anchor(fm, fname, P, inits[0], Rn, rest[0])
+    return Rn, len(adv)
+
+
+def anchor(fm, fname, P, wp, Rn, wr):
+    """initial pairing: P = msg->tail and R = len - sizeof(*msg), tail being the trailing flexible member"""
+    pv = strip(wp.val, casts=True)
+    ok = kind(pv) == "MemberExpr" and pv.get("isArrow") and kind(strip(kids(pv)[0])) == "DeclRefExpr" and \
+        strip(kids(pv)[0]).get("referencedDecl", {}).get("kind") == "ParmVarDecl"
+    if not ok:
+        raise AnalysisError("%s(): cursor `%s` does not start at a member of the message parameter (`%s`)" % (fname, P, ctext(wp.val)[:40]))
+    Q = strip(kids(pv)[0]).get("referencedDecl", {}).get("name")
+    st = re.sub(r"[\s\*]+$", "", qt_of(strip(kids(pv)[0])))
+    rv = strip(wr.val)
+    ok = kind(rv) == "BinaryOperator" and rv.get("opcode") == "-"
+    if ok:
+        a, b = strip(kids(rv)[0]), strip(kids(rv)[1], casts=True)
+        ok = kind(a) == "DeclRefExpr" and a.get("referencedDecl", {}).get("kind") == "ParmVarDecl" and \
+            fm.never_written(a.get("referencedDecl", {}).get("name")) and fm.never_written(Q) and \
+            kind(b) == "UnaryExprOrTypeTraitExpr" and b.get("name") == "sizeof" and \
+            " ".join((sizeof_type(b) or "").replace("const ", "").split()) == st
+    if not ok:
+        raise AnalysisError("%s(): counter `%s` does not start as `length - sizeof(*%s)` (`%s`)" % (fname, Rn, Q, ctext(wr.val)[:50]))
+    sn = st.replace("struct ", "")
+    real = fm.real_structs.get(sn)
+    if real is None:
+        fm_assume = "struct %s: `%s` is its trailing flexible member (struct not found in the tree)" % (sn, pv.get("name"))
+        fm.assumed = getattr(fm, "assumed", []) + [fm_assume]
+        return
+    order, mem = real[2], real[1]
+    ext = mem.get(pv.get("name"), (None, None))[1]
+    if not order or order[-1] != pv.get("name") or ext is None or (ext.strip() and c_fold(ext, real[3]) != 0):
+        raise AnalysisError("%s(): `%s` is not the trailing flexible member of struct %s (%s): sizeof(*%s) is not its offset" % (
+            fname, pv.get("name"), sn, real[0], Q))
+
+
+def sizeof_type(n):
+    if "argType" in n:
+        return n["argType"].get("qualType")
+    ks = kids(n)
+    return strip(ks[0]).get("type", {}).get("qualType") if ks else None
+
+
+def caller_files(L, tier):
+    rels = [F_SYS, F_RR]
+    if tier == "thorough":
+        top = os.path.join(L.repo, "src/host/layer23/src")
+        for dp, dn, fns in os.walk(top):
+            for fn in sorted(fns):
+                if fn.endswith(".c"):
+                    rel = os.path.relpath(os.path.join(dp, fn), L.repo)
+                    if rel not in rels:
+                        with open(os.path.join(dp, fn), "r", encoding="utf-8", errors="surrogateescape") as f:
+                            if FN in f.read():
+                                rels.append(rel)
+    return rels
 
 
 # ================================================================= call sites
@@ -1754,11 +2523,12 @@ def r5_setfh(L):
 
 
 def run(L, tier):
-    fm, K = build_slice(L)
-    D = Dec(L, fm, K)
-    r1_gate(L, D)
-    r2_output(L, D)
-    r3_scratch(L, D)
-    r4_order(L, D)
-    r2_callers(L, D, tier)
-    r5_setfh(L)
+    L.stage(r6_readable, L, tier)       # callers: bitmap octets exist (own slices, independent of the decoder's)
+    L.stage(r5_setfh, L)                # downstream consumer
+    sl = L.stage(build_slice, L)
+    D = L.stage(lambda x: Dec(L, x[0], x[1]), sl)
+    L.stage(r1_gate, L, D)
+    L.stage(r2_output, L, D)
+    L.stage(r3_scratch, L, D)
+    L.stage(r4_order, L, D)
+    L.stage(r2_callers, L, D, tier)
